@@ -4,6 +4,7 @@ package queues
 
 import (
 	"context"
+	"math"
 	"time"
 
 	"github.com/pinealctx/neptune/queue/priq"
@@ -229,10 +230,20 @@ func (a *mQ) Has(op string) bool {
 
 // ---- priq
 
-// PEntry is the priority-queue item: value v with priority v/1000.
+// PEntry is the priority-queue item: value v with priority PriOf(v) (class v/1000: three ordinary priorities and the edges of int).
 type PEntry struct{ V int }
 
-func (p *PEntry) GetPriority() int { return p.V / 1000 }
+func (p *PEntry) GetPriority() int { return PriOf(p.V) }
+
+var priTable = []int{0, 1, 2, math.MaxInt, math.MinInt, -1, math.MaxInt - 1, math.MinInt + 1}
+
+// PriOf is the priority of value v.
+func PriOf(v int) int {
+	if c := v / 1000; c >= 0 && c < len(priTable) {
+		return priTable[c]
+	}
+	return 0
+}
 
 type priQ struct {
 	base
